@@ -58,6 +58,40 @@ func runC05(cx *ctx) {
 			})
 		}
 	}
+	// the 114 CCTV vectors with their recorded expectations: Go must meet them and the Lean reference must agree with Go
+	for _, v := range loadVectors() {
+		v := v
+		cx.ru.Do(func() *h.Case { return vectorCase(v) })
+	}
+	// Lean writes, Go decrypts: files produced by the reference encoder from tapes Go never saw
+	for kind := 0; kind < 4; kind++ {
+		for _, n := range cx.lens(r, cx.n(4, 20), cx.n(2, 8)) {
+			kind, n := kind, n
+			rr := r.Fork()
+			cx.ru.Do(func() *h.Case {
+				p := mkParty(rr, kind)
+				pt := rr.Bytes(n)
+				tape := rr.Bytes(200)
+				reply := cx.ask(fmt.Sprintf("fencfull %s %s %s", h.Hex(tape), p.recD, h.Hex(pt)))
+				if len(reply) < 3 || reply[:3] != "ok " {
+					return &h.Case{Kind: "leanwrites-" + p.label, Impl: "model-failed", Oracle: "the reference encoder failed: " + trunc(reply)}
+				}
+				file, err := hexDecode(reply[3:])
+				if err != nil {
+					return &h.Case{Kind: "leanwrites-" + p.label, Impl: "bad-hex", Oracle: "bad model output"}
+				}
+				return fdecCase("leanwrites-"+p.label, file, []age.Identity{p.id}, []string{p.idD}, fmt.Sprintf("file written by the Lean reference, %s pt=%d", p.label, n),
+					func(out []byte, class string, consulted int) string {
+						if class != "ok eof" || !bytes.Equal(out, pt) {
+							return fmt.Sprintf("the library does not decrypt the reference implementation's file: %s, %d bytes", class, len(out))
+						}
+						return ""
+					})
+			})
+		}
+	}
+	// the frozen corpus (files written once by the pinned tree)
+	frozenCases(cx)
 	// mixed recipient lists (no scrypt: it must be alone)
 	for i := 0; i < cx.n(30, 300); i++ {
 		rr := r.Fork()
